@@ -56,6 +56,7 @@ type memHandle struct {
 	saveFault string // one-shot: "", b, a, B, A
 	archFault string
 	rng       *hx.Rng
+	gate      *saveGate // creg family: Save waits inside the handle, Archive reports its entry
 }
 
 func newMemHandle(seed uint64) *memHandle {
@@ -71,6 +72,13 @@ func (h *memHandle) write(dir, name string, data []byte) {
 
 func (h *memHandle) Save(data []byte, dir, name string) error {
 	h.mu.Lock()
+	if g := h.gate; g != nil && h.saveFault == "" {
+		h.write(dir, name, data)
+		h.mu.Unlock()
+		g.saveDone <- struct{}{}
+		<-g.releaseSave
+		return nil
+	}
 	defer h.mu.Unlock()
 	f := h.saveFault
 	h.saveFault = ""
@@ -108,6 +116,12 @@ func (h *memHandle) move(dir string) error {
 func (h *memHandle) Archive(dir string) error {
 	h.mu.Lock()
 	defer h.mu.Unlock()
+	if g := h.gate; g != nil {
+		select {
+		case g.archEntered <- struct{}{}:
+		default:
+		}
+	}
 	f := h.archFault
 	h.archFault = ""
 	switch f {
@@ -226,6 +240,7 @@ type wrig struct {
 	h      *memHandle
 	reg    *tbtc.VerifC38Registry
 	idFail bool
+	seen   map[string]bool
 }
 
 func (r *wrig) calcID(pk *ecdsa.PublicKey) ([32]byte, error) {
@@ -344,116 +359,137 @@ func classify(err error) string {
 	return "e:other"
 }
 
+// seqStep runs one sequential step; returns the observation entry, the tags hit (joined by +)
+// and false for a malformed step.
+func (r *wrig) seqStep(st string) (string, string, bool) {
+	tags := map[string]bool{}
+	res := ""
+	switch {
+	case st == "r":
+		res = "r"
+		tags["restart"] = true
+		if err := r.restart(); err != nil {
+			res = "e:start"
+		}
+	case st[0] == 'R' && (len(st) == 4 || len(st) == 5):
+		w, i, s := int(st[1]-'0'), int(st[2]-'0'), int(st[3]-'0')
+		if w < 1 || w > 4 || i < 1 || i > 9 || s < 0 || s > 4 {
+			return "", "", false
+		}
+		fault := ""
+		if len(st) == 5 {
+			fault = st[4:]
+		}
+		if fault == "i" {
+			r.idFail = true
+		} else {
+			r.h.saveFault = fault
+		}
+		err, crashed := crashable(func() error {
+			return r.reg.RegisterSigner(walletPubs[w], operators, group.MemberIndex(i), fixShares[s])
+		})
+		r.idFail = false
+		r.h.saveFault = ""
+		key := st[1:3]
+		if r.seen[key] {
+			tags["dup"] = true
+		}
+		r.seen[key] = true
+		switch {
+		case crashed:
+			res = "crash"
+			tags["crash"] = true
+			if err := r.restart(); err != nil {
+				res = "e:start"
+			}
+		default:
+			res = classify(err)
+			tags["reg"] = true
+			switch fault {
+			case "b":
+				tags["savefail"] = true
+			case "a":
+				tags["tornsave"] = true
+			case "i":
+				if err != nil {
+					tags["idfail"] = true
+				}
+			}
+		}
+	case st[0] == 'X' && (len(st) == 2 || len(st) == 3):
+		w := int(st[1] - '0')
+		if w < 1 || w > 4 {
+			return "", "", false
+		}
+		fault := ""
+		if len(st) == 3 {
+			fault = st[2:]
+		}
+		r.h.archFault = fault
+		err, crashed := crashable(func() error {
+			return r.reg.ArchiveWallet(bitcoin.PublicKeyHash(walletPubs[w]))
+		})
+		r.h.archFault = ""
+		switch {
+		case crashed:
+			res = "crash"
+			tags["crash"] = true
+			if err := r.restart(); err != nil {
+				res = "e:start"
+			}
+		default:
+			res = classify(err)
+			switch res {
+			case "ok":
+				tags["archive"] = true
+			case "e:nf":
+				tags["notfound"] = true
+			case "e:arch":
+				if fault == "a" {
+					tags["tornarch"] = true
+				} else {
+					tags["archfail"] = true
+				}
+			}
+		}
+	default:
+		return "", "", false
+	}
+	var ts []string
+	for t := range tags {
+		ts = append(ts, t)
+	}
+	if r.reg == nil {
+		return res + "/dead", strings.Join(ts, "+"), true
+	}
+	return res + "/" + r.snapshot(), strings.Join(ts, "+"), true
+}
+
 func execWreg(f []string) (string, string) {
 	fixOnce.Do(loadFixtures)
 	if fixErr != nil {
 		return "fixture-error " + fixErr.Error(), "bad"
 	}
-	r := &wrig{h: newMemHandle(hx.AtoU64(f[1]))}
+	r := &wrig{h: newMemHandle(hx.AtoU64(f[1])), seen: map[string]bool{}}
 	if err := r.restart(); err != nil {
 		return "e:start", "bad"
 	}
 	tags := map[string]bool{}
-	seen := map[string]bool{}
 	var outs []string
 	for _, st := range hx.SplitList(f[2]) {
-		res := ""
-		switch {
-		case st == "r":
-			res = "r"
-			tags["restart"] = true
-			if err := r.restart(); err != nil {
-				res = "e:start"
-			}
-		case st[0] == 'R' && (len(st) == 4 || len(st) == 5):
-			w, i, s := int(st[1]-'0'), int(st[2]-'0'), int(st[3]-'0')
-			if w < 1 || w > 4 || i < 1 || i > 9 || s < 0 || s > 4 {
-				return "bad-op", "bad"
-			}
-			fault := ""
-			if len(st) == 5 {
-				fault = st[4:]
-			}
-			if fault == "i" {
-				r.idFail = true
-			} else {
-				r.h.saveFault = fault
-			}
-			err, crashed := crashable(func() error {
-				return r.reg.RegisterSigner(walletPubs[w], operators, group.MemberIndex(i), fixShares[s])
-			})
-			r.idFail = false
-			r.h.saveFault = ""
-			key := st[1:3]
-			if seen[key] {
-				tags["dup"] = true
-			}
-			seen[key] = true
-			switch {
-			case crashed:
-				res = "crash"
-				tags["crash"] = true
-				if err := r.restart(); err != nil {
-					res = "e:start"
-				}
-			default:
-				res = classify(err)
-				tags["reg"] = true
-				switch fault {
-				case "b":
-					tags["savefail"] = true
-				case "a":
-					tags["tornsave"] = true
-				case "i":
-					if err != nil {
-						tags["idfail"] = true
-					}
-				}
-			}
-		case st[0] == 'X' && (len(st) == 2 || len(st) == 3):
-			w := int(st[1] - '0')
-			if w < 1 || w > 4 {
-				return "bad-op", "bad"
-			}
-			fault := ""
-			if len(st) == 3 {
-				fault = st[2:]
-			}
-			r.h.archFault = fault
-			err, crashed := crashable(func() error {
-				return r.reg.ArchiveWallet(bitcoin.PublicKeyHash(walletPubs[w]))
-			})
-			r.h.archFault = ""
-			switch {
-			case crashed:
-				res = "crash"
-				tags["crash"] = true
-				if err := r.restart(); err != nil {
-					res = "e:start"
-				}
-			default:
-				res = classify(err)
-				switch res {
-				case "ok":
-					tags["archive"] = true
-				case "e:nf":
-					tags["notfound"] = true
-				case "e:arch":
-					if fault == "a" {
-						tags["tornarch"] = true
-					} else {
-						tags["archfail"] = true
-					}
-				}
-			}
-		default:
+		out, tag, ok := r.seqStep(st)
+		if !ok {
 			return "bad-op", "bad"
 		}
+		for _, t := range strings.Split(tag, "+") {
+			if t != "" {
+				tags[t] = true
+			}
+		}
+		outs = append(outs, out)
 		if r.reg == nil {
-			outs = append(outs, res+"/dead")
 			break
 		}
-		outs = append(outs, res+"/"+r.snapshot())
 	}
 	var ts []string
 	for _, t := range []string{"reg", "dup", "savefail", "tornsave", "idfail", "archive", "notfound", "archfail", "tornarch", "crash", "restart"} {
@@ -474,6 +510,8 @@ func exec(op string) (string, string) {
 		return execWreg(f)
 	case len(f) == 3 && f[0] == "greg":
 		return execGreg(f)
+	case len(f) == 3 && f[0] == "creg":
+		return execCreg(f)
 	}
 	return "bad-op", "bad"
 }
@@ -517,6 +555,10 @@ func genSteps(r *hx.Rng, family string) string {
 func gen(r *hx.Rng, n int, tier string) []string {
 	var ops []string
 	for i := 0; i < n; i++ {
+		if i%6 == 5 {
+			ops = append(ops, genCreg(r))
+			continue
+		}
 		fam := "wreg"
 		if i%3 == 2 {
 			fam = "greg"
@@ -527,5 +569,5 @@ func gen(r *hx.Rng, n int, tier string) []string {
 }
 
 func main() {
-	hx.Main(&hx.Config{Prop: "C38", Gen: gen, Exec: exec, PerOpTimeout: 60 * time.Second})
+	hx.Main(&hx.Config{Prop: "C38", Gen: gen, Exec: exec, Facts: c38Facts, PerOpTimeout: 60 * time.Second})
 }
